@@ -228,7 +228,8 @@ impl TcpStreamInProgress {
     pub fn try_connect(self) -> Result<TcpTryConnect> {
         match rusl::network::connect_inet(self.0 .0, &self.1) {
             Ok(()) => {}
-            Err(e) if matches!(e.code, Some(Errno::EINPROGRESS)) => {
+            // Connecting again while the first attempt is still in progress gives `EALREADY`
+            Err(e) if matches!(e.code, Some(Errno::EINPROGRESS | Errno::EALREADY)) => {
                 return Ok(TcpTryConnect::InProgress(self));
             }
             Err(e) => {
@@ -248,7 +249,15 @@ impl TcpStreamInProgress {
             Errno::EINPROGRESS,
             PollEvents::POLLOUT,
             None,
-            |sock| rusl::network::connect_inet(sock, &self.1),
+            |sock| match rusl::network::connect_inet(sock, &self.1) {
+                // Connecting again while the first attempt is still in progress gives
+                // `EALREADY`, wait for that attempt to finish just the same
+                Err(e) if e.code == Some(Errno::EALREADY) => Err(rusl::Error {
+                    code: Some(Errno::EINPROGRESS),
+                    ..e
+                }),
+                res => res,
+            },
         )?;
         let Self(o, _addr) = self;
         Ok(TcpStream(o))
